@@ -43,6 +43,7 @@ func runC12(c *Ctx) {
 	c.R.Rule = "S: (max-size ∈ {0,8..64,4096,…}, 1–12 frames mostly well-formed + one malformed element, PRNG segmentation incl. 1-byte chunks and header splits) -> frames/outcome of the real serve() vs Stream.readAll on the same chunks; non-trivial = ≥2 frames or a refused stream; " +
 		"E: scenarios (pool 1–4 × relay mode × max-size × compression × cache) of 20–60 messages over 20 API methods from concurrent senders -> every Route* record vs the send log, every wire frame vs Frame.encode; non-trivial = message larger than one buffer, compressed, important, refused or cached-name; distinct by (kind,size class,options); " +
 		"H: valid frames of every kind mutated at the boundaries of the extracted guards -> class and fields of handleRecvQueue vs Frame.parse; " +
+		"Q: receive-queue lockstep: 2-6 messages from 1-3 senders over 1-3 links to one receiver, every queue operation of serve()/handleRecvQueue() a seeded scheduling point -> label enabledness and queue length vs Model/RecvQ, at rest: queue empty, everything routed in sender order; non-trivial = a failed Lock or a re-check that found an item; " +
 		"N: two real nodes over loopback: Send/SendImportant by pid, name, alias and to non-existent addressees, sizes 0..70 kB, compression on/off -> return value vs deliveries recorded by the receiving actor"
 	c12Stream(c)
 	for _, v := range c.R.Violations {
@@ -55,6 +56,7 @@ func runC12(c *Ctx) {
 	}
 	c12EndToEnd(c)
 	c12Handler(c)
+	c12recvq(c)
 	c12Nodes(c)
 }
 
